@@ -833,6 +833,10 @@ class PerceptionAnalyzerBase(ABC):
         target_labels: List[str] = self.target_labels.copy()
         if "unknown" not in target_labels:
             target_labels.append("unknown")
+        # NOTE: paired rows can have labels out of target labels, e.g. GT labeled as false_positive
+        for label in pd.unique(pd.concat([gt_df["label"], est_df["label"]])):
+            if label not in target_labels:
+                target_labels.append(label)
 
         gt_indices: np.ndarray = gt_df["label"].apply(lambda label: target_labels.index(label)).to_numpy()
         est_indices: np.ndarray = est_df["label"].apply(lambda label: target_labels.index(label)).to_numpy()
